@@ -3,13 +3,16 @@ package cmd
 import (
 	"fmt"
 	"os"
+	"strings"
 
 	"github.com/spf13/cobra"
 
 	"github.com/ajitpratap0/GoSQLX/cmd/gosqlx/internal/config"
 	"github.com/ajitpratap0/GoSQLX/cmd/gosqlx/internal/output"
+	"github.com/ajitpratap0/GoSQLX/pkg/sql/ast"
 	"github.com/ajitpratap0/GoSQLX/pkg/sql/keywords"
 	"github.com/ajitpratap0/GoSQLX/pkg/sql/parser"
+	"github.com/ajitpratap0/GoSQLX/pkg/sql/tokenizer"
 )
 
 var (
@@ -271,9 +274,12 @@ func validateFromStdin(cmd *cobra.Command) error {
 // Uses the fast-path Validate() which skips full AST construction (#274).
 func validateInlineSQL(cmd *cobra.Command, sql string) error {
 	var err error
-	if validateDialect != "" {
+	switch {
+	case validateStrict:
+		err = validateStrictSQL(sql, validateDialect)
+	case validateDialect != "":
 		err = parser.ValidateWithDialect(sql, keywords.SQLDialect(validateDialect))
-	} else {
+	default:
 		err = parser.Validate(sql)
 	}
 	if err != nil {
@@ -293,6 +299,30 @@ func validateInlineSQL(cmd *cobra.Command, sql string) error {
 	if !validateQuiet {
 		fmt.Fprintln(cmd.OutOrStdout(), "✓ Valid SQL")
 	}
+	return nil
+}
+
+// validateStrictSQL validates inline SQL with the parser in strict mode
+// (--strict), which the package-level Validate helpers do not offer.
+func validateStrictSQL(sql string, dialect string) error {
+	if strings.TrimSpace(sql) == "" {
+		return nil
+	}
+	tkz, err := tokenizer.NewWithDialect(keywords.SQLDialect(dialect))
+	if err != nil {
+		return fmt.Errorf("tokenizer initialization: %w", err)
+	}
+	tokens, err := tkz.Tokenize([]byte(sql))
+	if err != nil {
+		return fmt.Errorf("tokenization error: %w", err)
+	}
+	p := parser.NewParser(parser.WithStrictMode(), parser.WithDialect(dialect))
+	defer p.Release()
+	tree, err := p.ParseFromModelTokens(tokens)
+	if err != nil {
+		return err
+	}
+	ast.ReleaseAST(tree)
 	return nil
 }
 
